@@ -301,13 +301,27 @@ def apply_op(mesh, op):
         raise ValueError(op)
 
 
+def curve_of(name):
+    """shipped curve by name, or a user rectangle 'Rect:a:b' (sides a and b; non-dyadic side ratios such as 3:2)"""
+    if name.startswith('Rect:'):
+        from src.parametrization import PiecewisePolygon
+        _, a, b = name.split(':')
+        a, b = float(a), float(b)
+        with quiet():
+            return PiecewisePolygon([np.array([0., 0.]), np.array([a, 0.]), np.array([a, b]), np.array([0., b]), np.array([0., 0.])])
+    return make_curve(name)
+
+
 def rebuild_mesh(hist):
     """The mesh of a recorded history (replay)."""
     from src.mesh import MeshParametrized
     assert hist[0][0] == 'init'
-    gamma = make_curve(hist[0][1])
+    gamma = curve_of(hist[0][1])
     with quiet():
-        mesh = MeshParametrized(gamma, initial_time_mesh=list(hist[0][2]))
+        if len(hist[0]) > 3:
+            mesh = MeshParametrized(gamma, initial_space_mesh=list(hist[0][3]), initial_time_mesh=list(hist[0][2]))
+        else:
+            mesh = MeshParametrized(gamma, initial_time_mesh=list(hist[0][2]))
         for op in hist[1:]:
             apply_op(mesh, op)
     return gamma, mesh
@@ -316,7 +330,11 @@ def rebuild_mesh(hist):
 def build_mesh(rng, curve, family, size):
     """Returns (gamma, mesh, history) -- the history is replay data for `rebuild_mesh`."""
     from src.mesh import MeshParametrized
-    gamma = make_curve(curve)
+    if family == 'space-grid' and rng.random() < 0.5:
+        # user rectangles with sides 3:2 (panels meeting at a corner have a non-integer length ratio); small with T = 1,
+        # large with very long time slabs - in both cases h_x^2/h_t <= 0.1 (kernel nearly constant over the panels)
+        curve = rng.choice(['Rect:0.09375:0.0625', 'Rect:3.0:2.0'])
+    gamma = curve_of(curve)
     hist = []
     tgrid = [0, 1]
     if family == 'time-grid':
@@ -338,9 +356,27 @@ def build_mesh(rng, curve, family, size):
         else:
             h = rng.choice([3e-5, 2.0**-14, 1e-6])
             tgrid = [h * k for k in range(nsl - 2)] + [1e-2, 0.1, 1.0]
+    sgrid = None
+    if family == 'space-grid':
+        # user-supplied initial SPACE grids whose panels on one side have non-dyadic length ratios (3:2, 2:3, 5:3 ...),
+        # with long time slabs (elements tall in time: neighbour couplings are large against the diagonal)
+        fr = rng.choice([[0.25, 0.625], [0.4], [0.375, 0.625], [0.3, 0.5, 0.8]])
+        if curve.startswith('Rect:'):
+            fr = []          # whole sides: the ratio 3:2 sits at the corners
+        sgrid = [0.0]
+        for k in range(len(gamma.pw_gamma)):
+            lo, hi = float(gamma.pw_start[k]), float(gamma.pw_start[k + 1])
+            sub = fr if (k % 2 == 0 or len(gamma.pw_gamma) == 1) else []
+            sgrid += [lo + (hi - lo) * f for f in sub] + [hi]
+        tgrid = rng.choice([[0, 64.], [0, 128., 512.], [0, 10], [0, 64., 128.]])
+        if curve.startswith('Rect:0.09'):
+            tgrid = rng.choice([[0, 1.], [0, 0.5, 1.]])
     with quiet():
-        mesh = MeshParametrized(gamma, initial_time_mesh=tgrid)
-    hist.append(['init', curve, tgrid])
+        if sgrid is None:
+            mesh = MeshParametrized(gamma, initial_time_mesh=tgrid)
+        else:
+            mesh = MeshParametrized(gamma, initial_space_mesh=sgrid, initial_time_mesh=tgrid)
+    hist.append(['init', curve, tgrid] if sgrid is None else ['init', curve, tgrid, sgrid])
 
     def leaves():
         return list(mesh.leaf_elements)
@@ -359,7 +395,7 @@ def build_mesh(rng, curve, family, size):
             do(['refine_axis', i, ax])
 
     with quiet():
-        if family in ('initial', 'time-grid', 'thin-slabs', 'extreme-slabs'):
+        if family in ('initial', 'time-grid', 'thin-slabs', 'extreme-slabs', 'space-grid'):
             pass
         elif family == 'uniform':
             while len(mesh.leaf_elements) * 4 <= size:
@@ -474,7 +510,7 @@ def mesh_plan(rng, tier, boost):
         plan.append((c, 'initial', 0))
     plan.append(('UnitSquare', 'extreme-slabs', 16))     # corpus: known finding F13
     fams = ['uniform', 'random', 'dorfler-iso', 'dorfler-aniso', 'point-graded', 'refine-grading', 'anisotropic', 'time-grid',
-            'thin-slabs']
+            'thin-slabs', 'space-grid']
     reps = (3 if tier == 'quick' else 5) * (2 if boost else 1)
     for r in range(reps):
         for k, f in enumerate(fams):
